@@ -89,6 +89,9 @@ def gen_cases(tier, seed):
             yield {"kind": "layout", "signal": si, "layout": [list(c) for c in lay]}
         yield {"kind": "orders", "signal": si, "dev": BOUNDS[tier]["dev"]}
     yield {"kind": "processes", "_inline": True}
+    for si in range(len(SIGNALS)):
+        for first in range(len(HIST_OPS)):
+            yield {"kind": "history", "signal": si, "first": first, "depth": 3 if tier == "quick" else 4}
     for pair in range(len(BODY_PAIRS)):
         yield {"kind": "bodies", "pair": pair, "bound": 0, "first": None}
         for chunk in range(8):
@@ -492,9 +495,78 @@ def readers_case(case, res):
     res.sample({"readers": [s[0] for s in specs], "sentinel": "counting wrapper around baseband.open"}, 1)
 
 
+HIST_OPS = ["compute", "persist", "asarray", "imul2", "iadd_b", "add_out", "rechunk", "data.compute"]
+
+
+def history_case(case, res):
+    """Every sequence of <= depth container / in-place operations on ONE Dask-backed signal object, mirrored on a NumPy twin."""
+    import itertools as it
+    zn0 = np_signal(case["signal"])
+    shape = zn0.shape
+    layout = [[shape[0]]] + [[1] * s for s in shape[1:]]
+    bnp = np.asarray(np_signal((case["signal"] + 1) % len(SIGNALS)).data)
+    bval = np.full(shape, 0.5) if bnp.shape != shape else np.real(bnp) * 0.25
+    for d in range(1, case["depth"] + 1):
+        for seq in it.product(range(len(HIST_OPS)), repeat=d):
+            if seq[0] != case["first"]:
+                continue
+            twin = type(zn0).like(zn0, np.array(np.asarray(zn0.data)))
+            x = dask_signal(zn0, layout)
+            b_d = da.from_array(bval.astype(np.real(np.asarray(zn0.data)).dtype), chunks=tuple(tuple(c) for c in layout))
+            res.state(("hist", case["signal"], seq))
+            res.traces += 1
+            names = [HIST_OPS[i] for i in seq]
+            try:
+                for nm in names:
+                    res.transitions += 1
+                    if nm == "compute":
+                        got = np.asarray(x.compute().data)
+                    elif nm == "persist":
+                        got = np.asarray(x.persist().data.compute())
+                    elif nm == "asarray":
+                        got = np.asarray(x)
+                    elif nm == "data.compute":
+                        got = x.data.compute()
+                    elif nm == "imul2":
+                        x *= 2
+                        twin *= 2
+                        got = None
+                    elif nm == "iadd_b":
+                        x += b_d
+                        twin += bval.astype(np.real(np.asarray(zn0.data)).dtype)
+                        got = None
+                    elif nm == "add_out":
+                        np.add(x, 1, out=x)
+                        np.add(twin, 1, out=twin)
+                        got = None
+                    elif nm == "rechunk":
+                        x = x.rechunk((shape[0],) + tuple(shape[1:]))
+                        got = None
+                    if got is not None:
+                        ref = np.asarray(twin.data)
+                        if got.shape != ref.shape or not np.allclose(got, ref, rtol=1e-13, atol=1e-13):
+                            res.violation(f"history|{nm}|stale or wrong values", f"after history {names} {nm} of the Dask-backed signal "
+                                          f"differs from the NumPy twin (max diff {float(np.max(np.abs(got - ref))):.3g})", case,
+                                          {"history": names})
+                            break
+                else:
+                    fin = np.asarray(x.compute().data)
+                    if not np.allclose(fin, np.asarray(twin.data), rtol=1e-13, atol=1e-13):
+                        res.violation("history|final compute", f"after history {names} compute() differs from the NumPy twin", case,
+                                      {"history": names})
+                    d_ = invariants.attrs_equal(twin, x.compute())
+                    if d_:
+                        res.violation("history|metadata", f"after history {names}: {d_}", case, {"history": names})
+            except Exception as e:
+                res.violation("history|raised", f"history {names}: {type(e).__name__}: {e}", case, {"history": names})
+            if any(n in ("imul2", "iadd_b", "add_out") for n in names) and names[0] in ("compute", "asarray", "persist"):
+                res.hits["materialise, write in place, materialise again"] += 1
+    res.sample({"history alphabet": HIST_OPS, "depth": case["depth"], "signal": SIGNALS[case["signal"]]}, 1)
+
+
 def check_case(case):
     res = report.Result()
-    {"layout": layout_case, "orders": orders_case, "processes": processes_case, "bodies": bodies_case, "readers": readers_case}[case["kind"]](case, res)
+    {"layout": layout_case, "history": history_case, "orders": orders_case, "processes": processes_case, "bodies": bodies_case, "readers": readers_case}[case["kind"]](case, res)
     return res
 
 
@@ -504,7 +576,7 @@ def main(argv=None):
         required_hits=["lazy, then equal after compute", "operation that raises", "layout rejected (chunked time axis)",
                        "chunked time axis accepted and correct", "task orders explored (graphs with a choice)",
                        "multiprocess scheduler", "task-body interleavings explored", "reader dask read lazy and equal",
-                       "two readers in one graph"],
+                       "two readers in one graph", "materialise, write in place, materialise again"],
         assumptions=["real thread and process pools are run once per case (configurations), their internal schedules are covered only "
                      "through the controlled task-order explorer and the cooperative thread explorer (Python-line granularity in "
                      "pulsarbat's transforms/fft/utils/contrib files)", "a layout an operation rejects (FFT along a chunked axis) must "
